@@ -372,7 +372,8 @@ class World(object):
     def _api(self, c, op, fn, args, info):
         """Invoke one API entry point through the trap and record everything."""
         call = self.ev("api", op=op, conn=c.idx, a=c.a, info=info,
-                       state=_state_name(c.proto), phase=c.phase, depth=self.depth)
+                       state=_state_name(c.proto), phase=c.phase, depth=self.depth,
+                       timeout=c.timeout, window=c.window)
         self.last_raised = None
         prev_api, self.in_api = self.in_api, call["i"]
         try:
@@ -546,6 +547,8 @@ class World(object):
         sh = self.shadow[a]
         c = self.live.get(a)
         ci = c.idx if c is not None else -1
+        if c is None or not c.connack_ok:
+            return []          # a broker acknowledges nothing before its CONNACK
         if kind == "PUBACK":
             return [i for i, v in sh.pub.items() if v["qos"] == 1 and v["state"] == "sent"
                     and (v["conn"] == ci or not cur_only)]
@@ -766,7 +769,8 @@ class World(object):
         pkt = {"t": "PUBLISH", "qos": qos, "dup": bool(dup) and qos > 0, "retain": retain,
                "topic": self._topic(tkind, tok), "id": ident,
                "payload": b"~%06d~" % tok + b"i" * size}
-        if self._send(a, pkt) and qos == 2:
+        c = self.live.get(a)
+        if self._send(a, pkt) and qos == 2 and c is not None and c.connack_ok:
             sh.inq2.setdefault(ident, "sent")
             sh.inq2_pkt[ident] = pkt
 
